@@ -413,14 +413,26 @@ class InstanceValue(Object):
         self.cls = cls
 
     @cached_property
+    def _assigned_attrs(self):
+        # type: () -> Attributes
+        attrs = {}  # type: Attributes
+        for b in reversed(self.cls.bases):
+            o = b.call(self.ctx)
+            if isinstance(o, InstanceValue):
+                attrs.update(o._assigned_attrs)
+        attrs.update(self.cls.scope.top.assigns(self.ctx).get(self, {}))
+        return attrs
+
+    @cached_property
     def _attrs(self):
         # type: () -> Attributes
-        attrs = self.cls._attrs.copy()
+        attrs = {}  # type: Attributes
         for b in reversed(self.cls.bases):
             o = b.call(self.ctx)
             if o:
                 attrs.update(o._attrs)
-        attrs.update(self.cls.scope.top.assigns(self.ctx).get(self, {}))
+        attrs.update(self.cls._attrs)
+        attrs.update(self._assigned_attrs)
         return attrs
 
 
